@@ -280,7 +280,7 @@ def finish(ctx, level, explanation, extra_cov=None, rule=None):
         'samples': ctx.samples[:12] or [{'note': 'no path samples recorded'}],
         'explanation': explanation,
         'exhaustive': False,
-        'engine': 'mirsym (MIR -> z3, one process per path) on MIR regenerated from /repo this run',
+        'engine': 'mirsym (MIR -> z3 %s, one process per path) on MIR regenerated from %s this run' % (__import__('z3').get_version_string(), REPO),
         'functions_encoded': hashes,
         'std_models_used': sorted(model_names),
         'trusted_base': sorted(model_names) + ['z3 4.8.12 (python bindings of the tooling venv)', 'rustc nightly -Zunpretty=mir', 'mirsym interpreter'],
